@@ -162,7 +162,7 @@ def main(tier, seed):
     stable_docs = []
     try:
         try:
-            for what, xml, incs in c15.scanner_girs(rng, 3 if tier == 'quick' else 30):
+            for what, xml, incs in [e_[:3] for e_ in c15.scanner_girs(rng, 3 if tier == 'quick' else 30)]:
                 docs.append((what, xml))
             for b in range(10 if tier == 'quick' else 150):
                 docs.append(('structure members #%d' % b, field_world(rng, S, ET)))
